@@ -99,11 +99,7 @@ Print Assumptions retry_after_failure.
 Example retry_after_failure_satisfiable :
   forall o, all_solves_fail o (init cf_t8_11 1 true)
     [OpSolve; OpAdd (single_reflect 1 1 2 1); OpSolve; OpSolve; OpAdd (single_reflect 1 1 1 1); OpSolve].
-Proof.
-  intros o. simpl. repeat split; try discriminate;
-    match goal with |- snd (solve ?o ?s) <> Ok =>
-      rewrite (count_deficient_edom o s); [discriminate | reflexivity | apply Nat.lt_0_1 | reflexivity] end.
-Qed.
+Proof. intros o. apply solves_deficient_fail. vm_compute. reflexivity. Qed.
 
 (* after the two failures of the example, the third reflect makes the solve succeed exactly when
    the numeric oracle does, and the calibration appears *)
